@@ -174,6 +174,8 @@ isite('g_qcm_threshold', '(weight quorum : N) : bool', aggr, 'aggregator.rs', 'Q
 isite('g_qcm_reset', ': N', aggr, 'aggregator.rs', 'QCMaker', 'append', r'self\.weight\s*=\s*([^;]*?);', {}, '0')
 isite('g_tcm_threshold', '(weight quorum : N) : bool', aggr, 'aggregator.rs', 'TCMaker', 'append', r'if\s+(self\.weight[^{]*?)\s*\{', {'self.weight': 'weight', 'QUORUM': 'quorum'}, '(quorum <=? weight)', pre=QT)
 isite('g_tcm_reset', ': N', aggr, 'aggregator.rs', 'TCMaker', 'append', r'self\.weight\s*=\s*([^;]*?);', {}, '0')
+isite('g_agg_keep_votes', '(k round : N) : bool', aggr, 'aggregator.rs', 'Aggregator', 'cleanup', r'self\.votes_aggregators\.retain\(\s*\|[^|]*\|\s*([^)]*?)\s*\)', {'k': 'k', 'round': 'round'}, '(round <=? k)')
+isite('g_agg_keep_timeouts', '(k round : N) : bool', aggr, 'aggregator.rs', 'Aggregator', 'cleanup', r'self\.timeouts_aggregators\.retain\(\s*\|[^|]*\|\s*([^)]*?)\s*\)', {'k': 'k', 'round': 'round'}, '(round <=? k)')
 isite('g_leader_index', '(round size : N) : N', lead, 'leader.rs', 'RRLeaderElector', 'get_leader', r'keys\[\s*(.*?)\s*\]', {'round': 'round', 'SIZE': 'size'}, '(round mod size)', pre=lambda t: t.replace(' as usize', '').replace('self.committee.size()', 'SIZE'))
 isite('g_qw_threshold', '(total quorum : N) : bool', qwsrc, 'quorum_waiter.rs', 'QuorumWaiter', 'run', r'if\s+(total_stake[^{]*?)\s*\{', {'total_stake': 'total', 'QUORUM': 'quorum'}, '(quorum <=? total)', pre=lambda t: t.replace('self.committee.quorum_threshold()', 'QUORUM'))
 isite('g_batch_full', '(size batch_size : N) : bool', bmsrc, 'batch_maker.rs', 'BatchMaker', 'run', r'if\s+(self\.current_batch_size[^{]*?)\s*\{', {'self.current_batch_size': 'size', 'self.batch_size': 'batch_size'}, '(batch_size <=? size)')
